@@ -6,6 +6,7 @@
   * `ignore_appends` — executed, it keeps the surviving columns in place and appends the added ones.
 -/
 import SqlizeModel.Abs.Columns
+import SqlizeModel.Proofs.WalkRefine
 
 namespace Sqlize.C13
 open Sqlize
@@ -36,6 +37,14 @@ theorem ignore_no_position (m : Abs.M) : ∀ s ∈ Abs.emitUpIgnore m, ∀ c p, 
 theorem ignore_appends (m : Abs.M) (h : (m.map (·.1)).Nodup) :
     Abs.execAll (Abs.oldSide m) (Abs.emitUpIgnore m) = some (Abs.keptSide m ++ Abs.addedSide m) :=
   Abs.emitUpIgnore_correct m h
+
+/-- on the implementation model: with the option the printed ADD COLUMN statements carry no positional clause, kept
+    columns stay where they are and added ones are appended (refinement `walkCols_up_ignore_refines`) -/
+theorem printed_ignore (g : Globals) (hio : g.ignoreOrder = true) (hd : g.dialect ≠ .sqlite) (tb : String)
+    (cols : List Column) (hact : ∀ c ∈ cols, SimpleAction c.action) (hnd : (cols.map (·.name)).Nodup) :
+    Abs.execAll (oldNames cols) ((Table.walkCols g tb true [] cols).1.filterMap colStmt)
+      = some (Abs.keptSide (absCols cols) ++ Abs.addedSide (absCols cols)) :=
+  printed_up_ignore_correct g hio hd tb cols hact hnd
 
 example : Abs.emitUpIgnore (Abs.tagged ["z", "a", "b"] ["a", "c", "b"]) = [.appendCol "z", .dropCol "c"] := by decide
 
